@@ -232,25 +232,87 @@ func plHas(live []int, x int) bool {
 	return false
 }
 
-// history explores every sequence of <= depth node losses / additions below the current
-// point; the incremental algorithm gets the last produced layout as the previous one.
-func (d *placeDrv) history(t *placeTopo, ns string, P, R int, live []int, old [][]int, depth int) {
-	if depth == 0 {
+// plToggle flips the membership of the given nodes in the live set.
+func plToggle(live []int, xs []int) []int {
+	nl := append([]int{}, live...)
+	for _, x := range xs {
+		if plHas(nl, x) {
+			nl = plWithout(nl, x)
+		} else {
+			nl = plWith(nl, x)
+		}
+	}
+	return nl
+}
+
+// plEvents: the live sets reachable by one event.  Single events flip one node; multi events
+// (several nodes change between two layouts: the coordinator only recomputes on its check
+// rounds, and a data-centre outage takes all its nodes at once) flip a pair of nodes or take
+// a whole data centre down / bring it back.  Results are deduplicated by the live set.
+func plEvents(t *placeTopo, live []int, multi bool) (single [][]int, many [][]int) {
+	seen := map[string]bool{fmt.Sprint(live): true}
+	add := func(dst *[][]int, nl []int) {
+		k := fmt.Sprint(nl)
+		if !seen[k] {
+			seen[k] = true
+			*dst = append(*dst, nl)
+		}
+	}
+	for x := 1; x <= t.n; x++ {
+		add(&single, plToggle(live, []int{x}))
+	}
+	if !multi {
 		return
 	}
 	for x := 1; x <= t.n; x++ {
-		var nl []int
-		if plHas(live, x) {
-			nl = plWithout(live, x)
-		} else {
-			nl = plWith(live, x)
+		for y := x + 1; y <= t.n; y++ {
+			add(&many, plToggle(live, []int{x, y}))
 		}
+	}
+	for dc := 1; dc <= 4; dc++ {
+		var in, up []int
+		for i := 1; i <= t.n; i++ {
+			if t.dc[i-1] == dc {
+				in = append(in, i)
+				if plHas(live, i) {
+					up = append(up, i)
+				}
+			}
+		}
+		if len(up) > 0 {
+			add(&many, plToggle(live, up)) // outage of the data centre
+		} else if len(in) > 0 {
+			add(&many, plToggle(live, in)) // the data centre comes back
+		}
+	}
+	return
+}
+
+// history explores every sequence of <= remaining events below the current point; the
+// incremental algorithm gets the last produced layout as the previous one.  A path may
+// contain at most one multi event, and then has at most multiLen events in total.
+func (d *placeDrv) history(t *placeTopo, ns string, P, R int, live []int, old [][]int, remaining, length, multiLen int, usedMulti bool) {
+	if remaining <= 0 {
+		return
+	}
+	single, many := plEvents(t, live, !usedMulti && length+1 <= multiLen)
+	step := func(nl []int, rem int, um bool) {
 		r := d.call(t, "v2", ns, P, R, nl, old)
 		next := old
 		if r.res == "ok" {
 			next = r.out
 		}
-		d.history(t, ns, P, R, nl, next, depth-1)
+		d.history(t, ns, P, R, nl, next, rem, length+1, multiLen, um)
+	}
+	for _, nl := range single {
+		step(nl, remaining-1, usedMulti)
+	}
+	for _, nl := range many {
+		rem := remaining - 1
+		if m := multiLen - (length + 1); m < rem {
+			rem = m
+		}
+		step(nl, rem, true)
 	}
 }
 
@@ -280,6 +342,13 @@ func plAssignments(n, maxdc int, canonical bool) [][]int {
 	}
 	rec(0, 0)
 	return out
+}
+
+func plMin(a, b int) int {
+	if a < b {
+		return a
+	}
+	return b
 }
 
 func plSeq(n int) []int {
@@ -315,6 +384,8 @@ func placesim(args []string) error {
 	maxr := fs.Int("maxr", 3, "enum: max replicas")
 	hist := fs.Int("hist", 3, "enum: v2 history depth")
 	histn := fs.Int("histn", 0, "enum: history depth is reduced by one for topologies with more than this many nodes (0 = never)")
+	multi := fs.Int("multi", 2, "enum: max length of a history that contains a multi-node event (0 = single-node events only)")
+	histns := fs.Int("histns", 0, "enum: history trees only for the first k namespace names (0 = all)")
 	nsl := fs.String("ns", "ns0", "comma separated namespace names (they rotate the ring)")
 	nrand := fs.Int("n", 500, "rand: number of topologies")
 	shard := fs.Int("shard", 0, "enum: this shard")
@@ -341,7 +412,7 @@ func placesim(args []string) error {
 				topos++
 				t := newPlaceTopo(dc, 0)
 				canon := plCanonical(dc)
-				for _, ns := range names {
+				for nsi, ns := range names {
 					for R := 1; R <= *maxr; R++ {
 						// work units are dealt to the shards separately for cheap (fresh only)
 						// and expensive (with history trees) topologies
@@ -359,7 +430,7 @@ func placesim(args []string) error {
 								d.call(t, algo, ns, P, R, plSeq(n), nil)
 							}
 						}
-						if !canon || *hist <= 0 {
+						if !canon || *hist <= 0 || (*histns > 0 && nsi >= *histns) {
 							continue
 						}
 						for P := 1; P <= *maxp; P++ {
@@ -373,7 +444,7 @@ func placesim(args []string) error {
 							if *histn > 0 && n > *histn {
 								h--
 							}
-							d.history(t, ns, P, R, plSeq(n), old, h)
+							d.history(t, ns, P, R, plSeq(n), old, h, 0, *multi, false)
 						}
 					}
 				}
@@ -419,11 +490,34 @@ func placesim(args []string) error {
 				old = r.out
 			}
 			for step := d.rng.Intn(7); step > 0; step-- {
-				x := 1 + d.rng.Intn(n)
-				if plHas(live, x) {
-					live = plWithout(live, x)
-				} else {
-					live = plWith(live, x)
+				switch d.rng.Intn(4) {
+				case 0: // several nodes change at once
+					for k := 2 + d.rng.Intn(3); k > 0; k-- {
+						live = plToggle(live, []int{1 + d.rng.Intn(n)})
+					}
+				case 1: // a data centre goes down / comes back
+					_, many := plEvents(t, live, true)
+					if len(many) > 0 && n <= 12 {
+						live = many[len(many)-1-d.rng.Intn(plMin(len(many), D))]
+					} else {
+						dcx := 1 + d.rng.Intn(D)
+						var in, up []int
+						for i := 1; i <= n; i++ {
+							if dc[i-1] == dcx {
+								in = append(in, i)
+								if plHas(live, i) {
+									up = append(up, i)
+								}
+							}
+						}
+						if len(up) > 0 {
+							live = plToggle(live, up)
+						} else {
+							live = plToggle(live, in)
+						}
+					}
+				default:
+					live = plToggle(live, []int{1 + d.rng.Intn(n)})
 				}
 				r := d.call(t, "v2", ns, P, R, live, old)
 				if r.res == "ok" {
